@@ -1935,13 +1935,22 @@ def x_fread(ex, st, fr, ins, args):
     return n // size if size else 0
 
 
+def x_file_unseekable(ex, st, fr, ins, args):
+    _files(st)[args[0]]['noseek'] = True
+    return args[0]
+
+
 def x_ftell(ex, st, fr, ins, args):
     f = _files(st)[args[0]]
+    if f.get('noseek'):
+        return 0xffffffffffffffff  # -1: a pipe or socket
     return f['len'] if f.get('atend') else f['pos']
 
 
 def x_fseek(ex, st, fr, ins, args):
     f = _files(st)[args[0]]
+    if f.get('noseek'):
+        return 0xffffffff  # -1
     off = sgn(args[1], 64)
     wh = args[2]
     if wh != 0 and (f.get('atend') or wh == 2) and is_sym(f['len']):
@@ -1977,7 +1986,7 @@ EXTERNS = {
     '@sym_i32': x_sym_i32, '@sym_i8': x_sym_i8, '@sym_fail_alloc_at': x_fail_alloc_at, '@sym_readonly': x_sym_readonly, '@sym_i64': x_sym_i64, '@sym_f64': x_sym_f64, '@sym_f64_int': x_sym_f64_int,
     '@sym_assume': x_sym_assume, '@sym_choice': x_sym_choice, '@sym_assert': x_sym_assert, '@sym_reach': x_sym_reach,
     '@llvm.fabs.f64': x_fabs, '@tsk_generate_uuid': x_uuid, '@sym_file_new': x_file_new, '@sym_file_rewind': x_file_rewind,
-    '@sym_file_set_len': x_file_set_len, '@sym_file_len': x_file_len, '@sym_file_poke': x_file_poke, '@sym_file_peek': x_file_peek, '@fwrite': _forked(x_fwrite, [1, 2]), '@fread': _forked(x_fread, [1, 2]),
+    '@sym_file_set_len': x_file_set_len, '@sym_file_len': x_file_len, '@sym_file_unseekable': x_file_unseekable, '@sym_file_poke': x_file_poke, '@sym_file_peek': x_file_peek, '@fwrite': _forked(x_fwrite, [1, 2]), '@fread': _forked(x_fread, [1, 2]),
     '@ftell': x_ftell, '@fseek': x_fseek, '@feof': x_feof, '@ferror': x_noop0, '@fclose': x_noop0,
     '@fflush': x_noop0, '@clearerr': x_noop0, '@sqrt': x_sqrt, '@llvm.trunc.f64': _mk_round(z3.RTZ(), math.trunc),
     '@llvm.floor.f64': _mk_round(z3.RTN(), math.floor), '@llvm.ceil.f64': _mk_round(z3.RTP(), math.ceil),
